@@ -271,6 +271,14 @@ def check_query(case, ctx):
                         lambda cfg=cfg: "permutation %r\n%s" % (
                             cfg["shuffle"]["perm"], describe()))
 
+    if case.get("block_sizes"):
+        side, n = ("query", nq) if nq > nb else ("build", nb)
+        ctx.label("many-%s-points" % side)
+        for blk in (1024, 2048, 4096):
+            if n > blk and n % blk:
+                ctx.label("many-%s-points>%d-not-multiple" % (side, blk))
+        if nq > 2048 and must[:, 2048:].any():
+            ctx.label("hit-beyond-query-2048")
     if case.get("meridional"):
         ctx.label("meridional")
         if must.any() and config["metric_arg"] != "haversine":
@@ -418,6 +426,46 @@ def query_cases(draw, tier="quick", big=False):
     return {"build": {"lat": b["lat"], "lon": b["lon"]},
             "query": {"lat": q["lat"], "lon": q["lon"]},
             "config": config, "variants": variants}
+
+
+BLOCK_SIZES = [1023, 1024, 1025, 2047, 2048, 2049, 2050, 3000, 4095, 4096,
+               4097, 5000, 6000]
+
+
+@st.composite
+def block_size_cases(draw):
+    """Many points on one side (counts straddling plausible internal block
+    sizes 1024 / 2048 / 4096, up to 6000) against 1-8 points on the other:
+    the members of a small cloud are repeated cyclically (optionally rotated
+    about the axis) and put into a drawn order, so that hits occur at every
+    position of the long array; the reference matrix stays small."""
+    radius = draw(radius_specs())
+    r_km = float(radius_km_exact(radius))
+    metric = draw(st.sampled_from(["minkowski", "haversine"]))
+    kind = "arc" if metric == "haversine" else "chord"
+    cloud = draw(P.clouds(r_km, None, n_sets=2, metric=kind, allow_nan=False,
+                          allow_far=False, sizes=[(1, 8), (3, 30)],
+                          max_clusters=3))
+    few, base = cloud["sets"]
+    n = draw(st.one_of(st.sampled_from(BLOCK_SIZES),
+                       st.sampled_from(BLOCK_SIZES),
+                       st.integers(2049, 6000)))
+    m = len(base["lat"])
+    dlon = draw(st.sampled_from([0.0, 0.0, 0.0, 1e-4, 360.0 * m / n]))
+    order = draw(P.permutations_of(n))
+    lat, lon = [], []
+    for k in order:
+        lat.append(base["lat"][k % m])
+        lon.append(P._rotate(base["lon"][k % m], (k // m) * dlon))
+    many = {"lat": lat, "lon": lon}
+    few = {"lat": few["lat"], "lon": few["lon"]}
+    if draw(st.sampled_from([True, True, False])):
+        b, q = few, many
+    else:
+        b, q = many, few
+    config = draw(configs(len(b["lat"]), radius, metric))
+    return {"build": b, "query": q, "config": config, "variants": [],
+            "all_perms": False, "block_sizes": True}
 
 
 def small_perm_cases():
@@ -862,4 +910,6 @@ def suites(tier):
         Suite("index-histories", check_index_history,
               strategy=index_history_cases(),
               examples={"quick": 60, "thorough": 1500}),
+        Suite("block-sizes", check_query, strategy=block_size_cases(),
+              examples={"quick": 25, "thorough": 400}),
     ]
